@@ -465,6 +465,38 @@ def gen_cases_numbers(rng, n, limit, out):
             out.append(dict(fam='float-fixed', eng=0, text=f, exp=('val', 'NUMBER', x), model=True, src=dict(x=r)))
 
 
+# several literals in ONE expression: each must denote its own value whatever its neighbours spell
+CONFUSABLE = [('1', 1), ('1.0', 1.0), ('true', True), ("'1'", '1'), ('"1"', '1'), ('`1`', '1'), ('0', 0), ('0.0', 0.0),
+              ('false', False), ('null', None), ("''", ''), ('""', ''), ("'true'", 'true'), ("'null'", 'null'), ('01', 1),
+              ('1.00', 1.0), ('2', 2), ('2.0', 2.0), ('10', 10), ('10.0', 10.0), ("'1.0'", '1.0'), ('00', 0), ('0.00', 0.0),
+              ("'\\x31'", '1'), ('"\\061"', '1'), ("'a'", 'a'), ('"a"', 'a'), ('`a`', 'a'), ("'\\n'", '\n'), ('`\\n`', '\\n')]
+
+
+def gen_cases_multi(rng, n, singles, out):
+    pool = [(c['text'], c['exp'][2]) for c in singles
+            if c['exp'] and c['exp'][0] == 'val' and c['exp'][1] in ('QUOTED_STRING', 'NUMBER') and c['eng'] == 0
+            and len(c['text']) < 40 and c['model'] and '\n' not in c['text'] and c['src'].get('style') != 'v']
+    for k in range(n):
+        m = rng.choice([2, 2, 3, 3, 4, 6, 9])
+        lits = [rng.choice(CONFUSABLE) if (rng.random() < 0.7 or not pool) else rng.choice(pool) for _ in range(m)]
+        if rng.random() < 0.5:            # an equal-value pair of different type or spelling, in either order
+            a = rng.choice(CONFUSABLE)
+            twins = [b for b in CONFUSABLE if b[0] != a[0] and (b[1] == a[1] or str(b[1]) == str(a[1]))]
+            if twins:
+                lits[rng.randrange(m)] = a
+                lits.insert(rng.randrange(len(lits) + 1), rng.choice(twins))
+        form = rng.choice(['list', 'list', 'dict', 'args'])
+        sep = rng.choice([', ', ',', ' , '])
+        if form == 'list':
+            text = '[' + sep.join(t for t, _ in lits) + ']'
+        elif form == 'dict':
+            text = '{' + sep.join('k%d => %s' % (i, t) for i, (t, _) in enumerate(lits)) + '}'
+        else:
+            text = 'list(' + sep.join(t for t, _ in lits) + ')'
+        out.append(dict(fam='multi', eng=0, text=text, exp=('multi', form, [v for _, v in lits]), model=True,
+                        src=dict(form=form, n=len(lits))))
+
+
 WORD_PARTS = ['a', 'b', 'x', 'Z', '_', '_', '0', '1', '9', 'é', 'я', 'λ', '\u3042', '\u4e2d', 'ا', '٣', '²', '\u0903',
               '\U0001D7CE', '\U00010400', 'ª', 'ǅ', '\u00b5', '\uff10', '\u2160', '\u0301']
 
@@ -589,6 +621,8 @@ def check_expectation(eng, case, real):
             if not (isinstance(ex, expressions.Function) and ex.name == case['call'] and len(ex.args) == 0):
                 return 'word() parsed into %r' % (ex,)
         return None
+    if exp[0] == 'multi':
+        return check_multi(eng, case)
     kind, val = exp[1], exp[2]
     want = dict(ok=[tok(kind, val, 0)])
     if not lexcfg.same_result(real, want):
@@ -613,6 +647,42 @@ def check_expectation(eng, case, real):
     for g, what in ((got, 'Constant.value'), (ev, 'evaluated value')):
         if type(g) is not type(val) or not (lexcfg.same_float(g, val) if isinstance(val, float) else g == val):
             return '%s is %s, the literal spells %s' % (what, short(g), short(val))
+    return None
+
+
+def same_typed(g, val):
+    return type(g) is type(val) and (lexcfg.same_float(g, val) if isinstance(val, float) else g == val)
+
+
+def check_multi(eng, case):
+    """every literal of a composite expression is its own constant with its own value"""
+    form, vals = case['exp'][1], case['exp'][2]
+    try:
+        st = eng.engine(case['text'])
+    except Exception as e:
+        return 'the expression does not parse: %s: %s' % (type(e).__name__, str(e)[:80])
+    ex = st.expression
+    if not isinstance(ex, expressions.Function):
+        return 'parsed into %s' % type(ex).__name__
+    args = list(ex.args)
+    if form == 'dict':
+        args = [a.destination for a in args if isinstance(a, expressions.MappingRuleExpression)]
+    if len(args) != len(vals):
+        return '%d literal operands expected, the parser produced %d' % (len(vals), len(args))
+    for i, (a, v) in enumerate(zip(args, vals)):
+        if type(a) is not expressions.Constant:
+            return 'literal #%d parsed into %s, not Constant' % (i, type(a).__name__)
+        if not same_typed(a.value, v):
+            return 'literal #%d: Constant.value is %s, the literal spells %s' % (i, short(a.value), short(v))
+    ev = st.evaluate(context=shared_context())
+    got = list(ev.values()) if form == 'dict' and isinstance(ev, dict) else ev
+    if form == 'dict' and (not isinstance(ev, dict) or list(ev.keys()) != ['k%d' % i for i in range(len(vals))]):
+        return 'evaluated value is %s' % short(ev)
+    if not isinstance(got, list) or len(got) != len(vals):
+        return 'evaluated value is %s' % short(ev)
+    for i, (g, v) in enumerate(zip(got, vals)):
+        if not same_typed(g, v):
+            return 'literal #%d evaluates to %s, the literal spells %s' % (i, short(g), short(v))
     return None
 
 
@@ -670,6 +740,8 @@ def classify_failure(case):
         return 'keyword'
     if case['fam'] in ('pair', 'soup', 'next'):
         return 'lexer-total'
+    if case['fam'] == 'multi':
+        return 'literal-in-context'
     return 'string-literal'
 
 
@@ -872,6 +944,7 @@ def run(env, res):
                 exp = tuple(exp)
                 if exp[0] == 'toks':
                     exp = ('toks', exp[1])
+
             run_.process([dict(fam=rp['fam'], eng=0, text=lexcfg.uncps(rp['text']), exp=exp, model=rp.get('model', True),
                                src=rp.get('src') or {}, call=rp.get('call'))])
     else:
@@ -883,8 +956,14 @@ def run(env, res):
             if cases:
                 run_.process(cases, sweep=True)
         n = 6000 if tier == 'quick' else 60000
+        def multi(c):
+            singles = []
+            gen_cases_numbers(rng, 60, None, singles)
+            gen_cases_strings(rng, engs, 300, singles)
+            gen_cases_multi(rng, 3000 if tier == 'quick' else 40000, singles, c)
         for gen in (lambda c: gen_cases_strings(rng, engs, n, c),
                     lambda c: gen_cases_numbers(rng, 300 if tier == 'quick' else 3000, limit, c),
+                    multi,
                     lambda c: gen_cases_words(rng, engs, 1500 if tier == 'quick' else 15000, c),
                     lambda c: gen_cases_soups(rng, engs, 20000 if tier == 'quick' else 200000, c)):
             cases = []
